@@ -159,7 +159,7 @@ def resolveTolerance {τ : Type} (t : Option τ) (u : Option DistanceUnit) : Opt
   | some t, some u => some (t, u)
 
 /-- `VertexRTreeBuilder::build` + `RTreePlugin::new`; `fileExists` / `fileParses` describe the file the
-path names -/
+path names (`fileParses`: it is a vertex CSV and every coordinate in it is finite) -/
 def vertexBuilder (cfg : Json) (fileExists fileParses : Bool) : Except CfgErr (Option (Nat × DistanceUnit)) :=
   match cfgString cfg "vertices_input_file" with
   | .error e => .error e
@@ -189,6 +189,8 @@ structure EdgeFiles where
   restrictionsOk : Bool
   /-- number of linestrings of the geometry file -/
   geometry : Option Nat
+  /-- one of the linestrings has no points -/
+  emptyLinestring : Bool
   deriving Repr, Inhabited
 
 /-- the fields of the built `EdgeRtreeInputPlugin` that matter to matching -/
@@ -226,7 +228,8 @@ def edgeBuilder (cfg : Json) (files : EdgeFiles) : Except CfgErr EdgePlugin :=
               match files.geometry with
               | none => .error .io
               | some g =>
-                if rc.isSome && files.roadClass != some g then .error .userConfig
+                if files.emptyLinestring then .error .userConfig
+                else if rc.isSome && files.roadClass != some g then .error .userConfig
                 else .ok ⟨resolveTolerance t u, rc.isSome, vr.isSome⟩
 
 /-! ### haversine -/
